@@ -131,6 +131,18 @@ pub fn test_tool(file: &KFile) -> TestResult {
     ensure_eq!(&got.type_ngrams, &want.type_ngrams, "character type n-grams of the model written by the tool");
     ensure_eq!(&got.dict, &want.dict, "dictionary of the model written by the tool");
     ensure!(got.tag_models.is_empty(), "model written by the tool has tag models");
+    // the same file converted onto itself (--model-out names the input): the file is read before
+    // anything is written, so the result is the same model
+    if bytes.len() % 4 == 1 {
+        let same = dir.path("inplace.bin");
+        std::fs::write(&same, &bytes).map_err(|e| e.to_string())?;
+        let p = same.to_string_lossy().to_string();
+        let r = util::run_tool("convert_kytea_model", &["--model-in".into(), p.clone(), "--model-out".into(), p], b"")?;
+        ensure!(!r.stderr.contains("panicked"), "convert_kytea_model crashed converting a file onto itself: {}", r.stderr);
+        ensure!(r.code == Some(0), "convert_kytea_model exits with {:?} when --model-out names the input file: {}", r.code, r.stderr.lines().last().unwrap_or(""));
+        let z2 = std::fs::read(&same).map_err(|e| e.to_string())?;
+        ensure!(util::zstd_decode(&z2)? == raw, "converting a file onto itself gives another model than converting it into a new file");
+    }
     // truncated inputs (outside the unread tail): error status, no panic
     let body = bytes.len() - file.trailer.len();
     let mut cuts = vec![0usize, 1, body / 3, body / 2, body.saturating_sub(1)];
